@@ -84,7 +84,9 @@ HasNonFin(evs) == \E j \in 1..Len(evs) : IsNonFinEv(evs[j])
 
 \* ---- kind "parse" ------------------------------------------------------------
 AllocBound(c) == 65536 + 64 * Len(c.doc)
-EventBound(c) == 8 + 4 * Len(c.doc)
+\* UBJSON elements of type Z, T, F have no payload: up to 64 events per
+\* 6-byte typed container are inherent in the format (more is a grey zone)
+EventBound(c) == IF c.fmt = "ubjson" THEN 16 + 16 * Len(c.doc) ELSE 8 + 4 * Len(c.doc)
 
 \* decoder entries: the j-th successful Next delivers exactly value j
 NextWrong(c, r, R) ==
@@ -103,9 +105,10 @@ ParseVerdict(c) ==
       P == ConfProp(c.fmt)
       cr == CRun(out) IN
   (IF r.class = "infra" THEN <<"INFRA:" \o r.why>> ELSE <<>>)
-  \o (IF c.outcome # "ok" THEN <<"C03:outcome:" \o c.outcome>> ELSE <<>>)
+  \o (IF c.outcome # "ok" /\ ~(c.outcome = "hang" /\ r.class = "grey" /\ r.why = "many zero-byte elements")
+      THEN <<"C03:outcome:" \o c.outcome>> ELSE <<>>)
   \o (IF c.measure /\ c.alloc > AllocBound(c) THEN <<"C03:allocation out of proportion">> ELSE <<>>)
-  \o (IF c.measure /\ c.nev > EventBound(c) THEN <<"C03:events out of proportion">> ELSE <<>>)
+  \o (IF c.measure /\ c.nev > EventBound(c) /\ r.class # "grey" THEN <<"C03:events out of proportion">> ELSE <<>>)
   \o (IF r.class = "incomplete" /\ KnowsEnd(c) /\ c.outcome = "ok" /\ ~Refused(c)
       THEN <<"C03:truncated input not reported as an error">> ELSE <<>>)
   \o (IF r.class = "incomplete" /\ IsDecEntry(c.entry) /\ c.outcome = "ok" /\ ~Refused(c)
